@@ -17,8 +17,8 @@ def scenarios(ctx):
     Q = [{"r": 1}, {"f": 1}, {"k": 1}, {"p": 1}]
     # thorough: pairs of deviations. A pair costs ~2*10^5 group executions (~20 ms each) per scenario, so the fault pairs go on
     # the central scenario only and the others get the cheaper pairs
-    T = [{"r": 1, "f": 1}, {"k": 1, "f": 1}, {"k": 1, "r": 1}, {"r": 2}, {"p": 1}]
-    T2 = Q + [{"k": 1, "r": 1}, {"r": 2}]
+    T = Q + [{"r": 1, "f": 1}, {"k": 1, "r": 1}, {"r": 2}]
+    T2 = Q + [{"r": 2}]
     B = Q if quick else T2
     e = gc.errs(membership=True)
     tail = dict(h_conv=5.5, stable=0.5)
@@ -47,7 +47,7 @@ def scenarios(ctx):
     if not quick:
         out.append(("three", gc.two_members(errs=e, topics={"t": 3}, members=[dict(topics=["t"], assignors=["roundrobin"]),
                                                                               dict(topics=["t"], assignors=["roundrobin"], start=0.6),
-                                                                              dict(topics=["t"], assignors=["roundrobin"], start=1.2)], **tail), Q + [{"k": 1, "f": 1}]))
+                                                                              dict(topics=["t"], assignors=["roundrobin"], start=1.2)], **tail), Q))
         out.append(("sticky", gc.two_members(errs=e, members=[dict(topics=["t"], assignors=["sticky"]),
                                                               dict(topics=["t"], assignors=["sticky"], start=1.0)], **tail), Q))
     return out
